@@ -44,6 +44,8 @@ def strategy(kind, tier):
                 st.none(),
                 st.fixed_dictionaries({"kind": st.just("halfspace"), "axis": st.integers(0, dim - 1), "frac": st.floats(0.05, 0.95), "side": st.booleans()}),
                 st.fixed_dictionaries({"kind": st.just("random"), "seed": st.integers(0, 2**16), "p": st.sampled_from([0.5, 0.8, 0.95])}),
+                # edge of the domain: a mask that is given but selects nothing (a float compare that misses), or the first point only
+                st.fixed_dictionaries({"kind": st.sampled_from(["nothing", "first-point"])}),
             ),
         }
     )
@@ -120,8 +122,12 @@ def check(kind, case, rec):
             x = pts[:, mk["axis"]]
             thr = x.min() + mk["frac"] * (x.max() - x.min())
             mask = (x >= thr) if mk["side"] else (x <= thr)
-        else:
+        elif mk["kind"] == "random":
             mask = np.random.default_rng(mk["seed"]).uniform(size=len(pts)) < mk["p"]
+        else:
+            mask = np.zeros(len(pts), bool)
+            mask[:1] = mk["kind"] == "first-point"
+            rec.label("mask-selects-" + mk["kind"])
     kw = dict(only_surface=case["only_surface"])
     if mask is not None:
         # the same selection as a boolean array or as point indices (np.where / Boundary.points deliver the latter)
